@@ -201,6 +201,25 @@ pub mod cmp {
     #[verifier::external_body]
     pub fn max<T: MinMax>(a: T, b: T) -> (r: T) ensures r == (if b.key() >= a.key() { b } else { a }) { unimplemented!() }
 }
+// Duration - Duration panics on underflow in std: the subtraction carries that as a precondition (a panic-freedom obligation)
+impl vstd::std_specs::ops::SubSpecImpl<Duration> for Duration {
+    open spec fn obeys_sub_spec() -> bool { true }
+    open spec fn sub_req(self, rhs: Duration) -> bool { self.ns@ >= rhs.ns@ }
+    open spec fn sub_spec(self, rhs: Duration) -> Duration { Duration { ns: Ghost((self.ns@ - rhs.ns@) as nat) } }
+}
+impl core::ops::Sub<Duration> for Duration {
+    type Output = Duration;
+    #[verifier::external_body] fn sub(self, rhs: Duration) -> (r: Duration) { unimplemented!() }
+}
+impl vstd::std_specs::ops::AddSpecImpl<Duration> for Duration {
+    open spec fn obeys_add_spec() -> bool { true }
+    open spec fn add_req(self, rhs: Duration) -> bool { self.ns@ + rhs.ns@ <= dmax() }
+    open spec fn add_spec(self, rhs: Duration) -> Duration { Duration { ns: Ghost((self.ns@ + rhs.ns@) as nat) } }
+}
+impl core::ops::Add<Duration> for Duration {
+    type Output = Duration;
+    #[verifier::external_body] fn add(self, rhs: Duration) -> (r: Duration) { unimplemented!() }
+}
 impl vstd::std_specs::ops::AddSpecImpl<Duration> for Instant {
     open spec fn obeys_add_spec() -> bool { true }
     open spec fn add_req(self, rhs: Duration) -> bool { true }     // ASSUMED: Instant + Duration does not overflow the platform clock
